@@ -92,19 +92,20 @@ func (l *CountLogger) Count(sub string) int {
 }
 
 type DeployCfg struct {
-	IDs          []uint16          `json:"ids"`       // universal ids of the nodes that exist
-	PIDs         map[uint16]uint16 `json:"pids"`      // membership map (all configured nodes, may be a superset of IDs)
-	Silent       bool              `json:"silent"`    // SilentScheme vs LoudScheme
-	Threshold    int               `json:"threshold"` // Scheme.Threshold (signing needs Threshold+1 nodes)
-	Backend      string            `json:"backend"`   // scripted | bls | ps | eddsa | ecdsa
-	SP           scripted.Params   `json:"sp"`
-	SignSP       scripted.Params   `json:"signSp"`
-	PickUnsorted bool              `json:"pickUnsorted,omitempty"`
-	PickFixed    []uint16          `json:"pickFixed,omitempty"` // silent mode: members returned for every topic (truncated to the expected count)
-	PSMsgLen     int               `json:"psMsgLen,omitempty"`
-	PickDelayMs  int               `json:"pickDelayMs,omitempty"` // silent mode: the member selection callback takes this long on the simulated clock
-	QuietLog     bool              `json:"quietLog,omitempty"`    // the logger touches no shared memory and lingers at some sites (concurrent-dispatch runs)
-	QuietRec     bool              `json:"quietRec,omitempty"`    // neither do recorder and proxies (race-detector runs, whose verdict is the detector's)
+	IDs             []uint16          `json:"ids"`       // universal ids of the nodes that exist
+	PIDs            map[uint16]uint16 `json:"pids"`      // membership map (all configured nodes, may be a superset of IDs)
+	Silent          bool              `json:"silent"`    // SilentScheme vs LoudScheme
+	Threshold       int               `json:"threshold"` // Scheme.Threshold (signing needs Threshold+1 nodes)
+	Backend         string            `json:"backend"`   // scripted | bls | ps | eddsa | ecdsa
+	SP              scripted.Params   `json:"sp"`
+	SignSP          scripted.Params   `json:"signSp"`
+	PickUnsorted    bool              `json:"pickUnsorted,omitempty"`
+	PickFixed       []uint16          `json:"pickFixed,omitempty"` // silent mode: members returned for every topic (truncated to the expected count)
+	PSMsgLen        int               `json:"psMsgLen,omitempty"`
+	PickDelayMs     int               `json:"pickDelayMs,omitempty"`     // silent mode: the member selection callback takes this long on the simulated clock
+	RealInitDelayMs int               `json:"realInitDelayMs,omitempty"` // bls / ps / adapters: Init takes this long on the simulated clock (see scripted.Params.InitDelayMs)
+	QuietLog        bool              `json:"quietLog,omitempty"`        // the logger touches no shared memory and lingers at some sites (concurrent-dispatch runs)
+	QuietRec        bool              `json:"quietRec,omitempty"`        // neither do recorder and proxies (race-detector runs, whose verdict is the detector's)
 }
 
 type Deployment struct {
@@ -242,6 +243,12 @@ func (d *Deployment) buildNode(id uint16) {
 	default:
 		kgf, sf = extraBackend(d, id, cfg.Backend)
 	}
+	if cfg.RealInitDelayMs > 0 && cfg.Backend != "scripted" {
+		innerKG, innerSG := kgf, sf
+		delay := time.Duration(cfg.RealInitDelayMs) * time.Millisecond
+		kgf = func(fid uint16) tss.KeyGenerator { return &slowInitKG{KeyGenerator: innerKG(fid), d: delay} }
+		sf = func(fid uint16) tss.Signer { return &slowInitSG{Signer: innerSG(fid), d: delay} }
+	}
 	send := w.SendFunc(id)
 	var p tss.MpcParty
 	if cfg.Silent {
@@ -267,6 +274,27 @@ func (d *Deployment) buildNode(id uint16) {
 	}
 	d.Parties[id] = p
 	w.AddNode(id, p)
+}
+
+// slowInitKG / slowInitSG: a backend whose initialisation is not instantaneous.
+type slowInitKG struct {
+	tss.KeyGenerator
+	d time.Duration
+}
+
+func (s *slowInitKG) Init(parties []uint16, threshold int, sendMsg func(msg []byte, isBroadcast bool, to uint16)) {
+	time.Sleep(s.d)
+	s.KeyGenerator.Init(parties, threshold, sendMsg)
+}
+
+type slowInitSG struct {
+	tss.Signer
+	d time.Duration
+}
+
+func (s *slowInitSG) Init(parties []uint16, threshold int, sendMsg func(msg []byte, isBroadcast bool, to uint16)) {
+	time.Sleep(s.d)
+	s.Signer.Init(parties, threshold, sendMsg)
 }
 
 // Ctx returns a context that the deployment cancels at teardown.
